@@ -179,12 +179,18 @@ def run(chk, drv):
         for a, b in siblings:
             for m in ('lenient', 'strict'):
                 seqs += [['%s=%s' % (m, a), '%s=%s' % (m, b)], ['%s=%s' % (m, b), '%s=%s' % (m, a)]]
+        # one parser object kept while other files are parsed, then asked again (A, B, A through the same object)
+        for _ in range(6 if quick else 60):
+            a, b = rng.sample(good, 2)
+            m = rng.choice(['lenient', 'strict'])
+            seqs.append(['%s#k=%s' % (m, a), '%s=%s' % (rng.choice(['lenient', 'strict']), b), '%s#k=%s' % (m, a)])
         for seq, recs in common.pmap(_sequence, [(s, 7 + i) for i, s in enumerate(seqs)]):
             files = {s.split('=', 1)[1] for s in seq}
             chk.count(tuple(seq), nontrivial=len(files) >= 2, sample={'sequence': [os.path.basename(s) for s in seq]} if len(chk.cov['samples']) < 2 else None)
             chk.dist('sequences')
             for pos, (item, rec) in enumerate(zip(seq, recs)):
-                want = fresh[item.replace('2=', '=', 1) if item.split('=', 1)[0].endswith('2') else item][0]
+                plain = item.split('=', 1)[0].split('#')[0].rstrip('2') + '=' + item.split('=', 1)[1]
+                want = fresh[plain][0]
                 if key_of(rec) != key_of(want):
                     what = 'digest' if rec.get('digest') != want.get('digest') else 'registry / outcome'
                     chk.report('parse #%d of a sequence (%s) differs from its fresh-process result (%s)' % (pos + 1, os.path.basename(item), what),
